@@ -290,6 +290,10 @@ Proof. vm_compute. reflexivity. Qed.
 
 Lemma ser_void_elements_is_whatwg : ser_void_elements =s= whatwg_serializes_as_void.
 Proof. by_sset. Qed.
+(* relative to the void elements of 13.1.2 the serializer knows exactly the five obsolete elements more *)
+Lemma ser_void_elements_is_whatwg_void_plus_obsolete : forall n,
+  smem n ser_void_elements = up_to smem whatwg_void_elements whatwg_serializes_as_void_only [] n.
+Proof. by_sexc. Qed.
 Lemma ser_rawtext_parents_is_whatwg : ser_rawtext_parents =s= whatwg_ser_rawtext_parents.
 Proof. by_sset. Qed.
 Lemma ser_rawtext_parents_if_scripting_is_whatwg : ser_rawtext_parents_if_scripting =s= whatwg_ser_rawtext_parents_if_scripting.
@@ -301,6 +305,12 @@ Proof. by_sset. Qed.
 Lemma dispatch_modes_census : map fst dispatch = whatwg_insertion_modes ++ ["Foreign"] /\ map fst whatwg_cases = map fst dispatch
                               /\ map fst whatwg_renumbering = map fst dispatch.
 Proof. vm_compute. repeat split; reflexivity. Qed.
+(* html5ever has no "in select" / "in select in table" insertion mode (removed from the standard in 2025) *)
+Lemma legacy_select_modes_absent : forall m, smem m legacy_insertion_modes_extra = true -> smem m insertion_modes = false.
+Proof.
+  assert (forallb (fun m => negb (smem m insertion_modes)) legacy_insertion_modes_extra = true) as H by (vm_compute; reflexivity).
+  intros m Hm. rewrite forallb_forall in H. apply negb_true_iff. apply H. now apply (mem_In String.eqb string_eqb_ok).
+Qed.
 Lemma doctype_processed_in_is_whatwg : doctype_processed_in =s= whatwg_doctype_processed_in.
 Proof. by_sset. Qed.
 
